@@ -7,7 +7,7 @@ SPEC = {
     "check_vo": ["Model/XdpDhcpCheck.vo"],
     "driver": "c03",
     "component": "bpf/dhcp_fastpath.c + ebpf.Loader + dhcp.Server cache maintenance",
-    "driver_args": ["-shard", "40"],
+    "driver_args": ["-shard", "25"],
     "clauses": {0: "a transmitted reply is a well-formed Ethernet/IPv4/UDP/BOOTP frame (checksum, lengths, END option)",
                 1: "the reply echoes xid/htype/hlen/chaddr and is OFFER for DISCOVER, ACK for REQUEST",
                 2: "userspace answers the same request with the same kind of message",
